@@ -148,6 +148,21 @@ theorem one_thread_inside (c : Cfg V E) (init : Pid → Entry V E) (progs : Tid 
   rw [h1] at h2
   exact Option.some.inj h2
 
+/-- Lock order: whoever holds the dispatcher's subscription lock holds the module's update lock (it is only taken
+around the notifications, inside the critical section). -/
+theorem sub_lock_nested (c : Cfg V E) (init : Pid → Entry V E) (progs : Tid → List (Op V E)) (clock : Int)
+    (s : Sys V E) (hn : c.conns.Nodup) (hr : Reach c (Sys.init init progs clock) s) (t : Tid)
+    (h : s.slock = some t) : s.lock = some t := by
+  have hi := inv_reach hn hr
+  cases hl : s.lock with
+  | none => have := hi.slFree hl; rw [this] at h; cases h
+  | some t0 =>
+    have := hi.slOwner t0 hl
+    rw [this] at h
+    split at h
+    · cases h; rfl
+    · cases h
+
 /-- For every schedule of any number of threads, in every reachable state, what an activated connection has
 received for a parameter is the message list of a sequential run of the funnel on that parameter: the run of
 the calls completed so far (`s.hist p`, in the order the lock was released), followed by the call in flight
@@ -178,6 +193,7 @@ theorem interleaving_atomic (c : Cfg V E) (init : Pid → Entry V E) (progs : Ti
       | go _ _ _ => rw [hpc] at hmid; exact same (hmid.2.2 k hk)
       | stamped _ _ _ => rw [hpc] at hmid; exact same (hmid.2.2 k hk)
       | errset _ _ _ => rw [hpc] at hmid; exact same (hmid.2.2 k hk)
+      | built _ _ _ _ => rw [hpc] at hmid; exact same (hmid.2.2.2 k hk)
       | sending _ now r m rest =>
         rw [hpc] at hmid
         obtain ⟨h1, h2, h3, done, h4, h5, h6⟩ := hmid
@@ -297,7 +313,7 @@ def exS0 : Sys Nat Nat := Sys.init exInit exProgs 101
 
 /-- thread 0 takes the access lock and the update lock, thread 1 is blocked at `acquire` (its step is not
 enabled) until thread 0 has notified both connections and released -/
-def exSched : List Tid := List.replicate 13 0 ++ List.replicate 10 1 ++ [0]
+def exSched : List Tid := List.replicate 14 0 ++ List.replicate 11 1 ++ [0]
 
 example : (runSched exCfg exS0 exSched).map (fun s => ((s.logs 1 0).map (·.msg.ve), (s.logs 2 0).map (·.msg.ve),
     (s.entries 0).ve, s.lock)) = some ([.val 6, .err 1], [.val 6, .err 1], .err 1, none) := by decide
